@@ -10,7 +10,7 @@ EXPLANATION = ("abstract interpretation of BlockHandler::{new, intercept_request
                "reachable from them (including the encoder used for size measurement, BlockValue and the accessors) is "
                "an obligation; the only growth of the per-key upload buffer happens in extending_splice after the guard "
                "against the 16 KiB constant and nothing is written on the rejecting path; every HandlingError built on "
-               "these paths carries a 4.xx/5.xx code or is not_handled() where no response exists")
+               "these paths carries a 4.xx/5.xx code or is not_handled() where no response exists; rendering an error puts the diagnostic on the reply whole (C11.7 = C07.6)")
 NOT_DECIDED = "Not decided: nothing material; lru_time_cache internals and the user's Endpoint trait impls are trusted not to panic."
 ASSUMPTIONS = ["lru_time_cache::LruCache methods and the Endpoint type's Clone/Ord impls do not panic",
                "BlockValue.size_exponent <= 7 for block values held in the handler's state (established by both constructors, C13.3)"]
